@@ -436,7 +436,8 @@ impl PartitionSampler {
     /// Creates a new `PartitionSampler` instance.
     ///
     /// Partitions the given validators into `num_bins` bins of equal stake.
-    /// Partitioning is done randomly by splitting a randomly permuted list of nodes.
+    /// Partitioning is done by splitting a pseudo-randomly permuted list of nodes.
+    /// The permutation is a function of the validator list only, so all nodes agree on it.
     pub fn new(validators: Vec<ValidatorInfo>, num_bins: usize) -> Self {
         if num_bins == 0 {
             return Self {
@@ -452,7 +453,9 @@ impl PartitionSampler {
         let total_stake: Stake = validators.iter().map(|v| v.stake).sum();
         let stake_per_bin = total_stake.div_ceil(num_bins as u64);
         let mut validators_random = validators;
-        validators_random.shuffle(&mut rand::rng());
+        // NOTE: every node has to derive the same partition from the same validator set,
+        // so the permutation is pseudo-random but fixed (not drawn from the thread RNG)
+        validators_random.shuffle(&mut StdRng::seed_from_u64(0x5041_5254_4954_494f));
 
         // partition into bins
         let mut current_bin = 0;
